@@ -1,5 +1,5 @@
 pub type Coin = BigNum;
-opaque_types!(PlutusScriptSourceEnum, DatumSourceEnum, PlutusData, ExUnits, NativeScriptSourceEnum, Certificate, ScriptHash, AssetMintMap, Voter, VotesOfVoter);
+opaque_types!(PlutusScriptSourceEnum, DatumSourceEnum, PlutusData, ExUnits, NativeScriptSourceEnum, Certificate, ScriptHash, Voter, VotesOfVoter, AssetName, Int);
 pub type PolicyID = ScriptHash;
 clone_eq!(PlutusScriptSourceEnum, DatumSourceEnum, PlutusData, ExUnits, RedeemerTag);
 impl vstd::std_specs::convert::FromSpecImpl<usize> for BigNum {
@@ -31,3 +31,18 @@ impl vstd::std_specs::cmp::PartialOrdSpecImpl for RawHash {
     }
 }
 impl PartialOrd for RawHash { #[verifier::external_body] fn partial_cmp(&self, o: &RawHash) -> (r: Option<core::cmp::Ordering>) { unimplemented!() } }
+
+// ---- C10 / C16: the built mint lists the policies in the builder's (BTreeMap = ascending policy id) order, the order the mint redeemer indices count in
+clone_eq!(ScriptHash);
+/// BTreeMap<AssetName, Int> of one policy's mints as far as `build` uses it: entries in ascending asset-name order (R-btree)
+pub struct AssetMintMap { pub entries: Vec<(AssetName, Int)> }
+/// MintAssets (a BTreeMap<AssetName, Int> with a non-zero check on insert; its own methods are not under contract here): the sequence of
+/// successful inserts it was built by
+#[verifier::external_body] pub struct MintAssets { _p: core::marker::PhantomData<u8> }
+clone_eq!(MintAssets);
+impl MintAssets {
+    pub uninterp spec fn ins(&self) -> Seq<(AssetName, Int)>;
+    #[verifier::external_body] pub fn new() -> (r: MintAssets) ensures r.ins().len() == 0 { unimplemented!() }
+    #[verifier::external_body] pub fn insert(&mut self, key: &AssetName, value: &Int) -> (r: Result<Option<Int>, JsError>)
+        ensures r is Ok ==> final(self).ins() == old(self).ins().push((*key, *value)) { unimplemented!() }
+}
